@@ -87,6 +87,24 @@ def boundary_descr(draw):
     return text + ("." if draw(st.booleans()) else "")
 
 
+@st.composite
+def long_token_descr(draw):
+    """a description holding ONE whitespace-free token longer than the wrap width (a URL, a file path, a dotted module
+    path): word-wrapping may move it to a line of its own but must never cut it"""
+    kind = draw(st.sampled_from(["url", "path", "dotted"]))
+    segs = draw(st.lists(st.sampled_from(WORDS + ["v2", "models", "weights", "resnet50", "checkpoint_0001", "x86_64"]), min_size=14, max_size=24))
+    if kind == "url":
+        tok = "https://example.org/" + "/".join(segs)
+    elif kind == "path":
+        tok = "/usr/share/" + "/".join(segs)
+    else:
+        tok = "pkg." + ".".join(w.replace("-", "_") for w in segs)
+    while len(tok) <= 104:
+        tok += "_more"
+    pre, post = draw(sentence(2, 5)), draw(st.one_of(st.just(""), sentence(1, 4)))
+    return ("%s %s %s" % (pre, tok, post)).strip() + ("." if draw(st.booleans()) and kind != "dotted" else "")
+
+
 multiword_str = st.sampled_from(["hello wide world", "fast mode", "a b", "two words", "AA-AA", "left-to-right text", "x y z w", "North West"])
 # legal non-ASCII identifiers (already NFKC-normalised, as the Python parser would make them)
 unicode_names = st.sampled_from(["prénom", "größe", "naïve", "名前", "住所", "π", "ñandú", "данные", "x²".replace("²", "_2"), "café_size"])
@@ -296,4 +314,6 @@ def labels_of(case):
         out.append("has-returns")
     if not case.get("doc"):
         out.append("empty-header")
+    if any(len(w) > 100 for _n, p in case["params"] for w in (p.get("doc") or "").split()):
+        out.append("descr:long-token")
     return out
